@@ -5,6 +5,8 @@ on_ws_connection_close / _on_close_called) and WebSocketProtocol13 (close / _abo
 periodic_ping / start_pinging / write_message / _receive_frame_loop), after a REAL handshake
 (RequestHandler._execute -> WebSocketHandler.get -> accept_connection) over a stand-in HTTPConnection, on the
 virtual loop with the virtual clock.
+Client side (h_client_close): the real WebSocketClientConnection (real headers_received on a concrete 101) in callback
+style and in read_message() style, same schedule vocabulary and oracle.
 Oracle (from the statement, over the wire log + callbacks): <= 1 close frame sent, no data frame after it, the close
 frame echoes the peer's code unless we closed first, TCP closed once both sides have closed or the closing timeout
 has elapsed, on_close exactly once with the peer's code/reason when one was received, write_message after closing
@@ -87,7 +89,7 @@ def pre_close(cfg: int, prestate: int, lc: int, pc: int, ops: List[int]) -> bool
            "on_message completes}, then a drain (in-flight completes, clock +100 s)",
            "a pong or peer frame that arrives while an async on_message is in flight is not 'received' until it "
            "completes (sequential frame processing): ping-timeout expectations are not asserted for such windows"],
-    outside=["client side (WebSocketClientConnection)", "close reasons that are not valid UTF-8",
+    outside=["client side here (see h_client_close)", "close reasons that are not valid UTF-8",
              "schedules longer than prefix + N steps", "fractional ping intervals"],
 )
 def h_close(cfg: int, prestate: int, lc: int, pc: int, ops: List[int]):
@@ -463,7 +465,10 @@ def pre_client(style: int, prestate: int, lc: int, pc: int, ops: List[int]) -> b
         return False
     if not (0 <= style <= 1 and 0 <= prestate < len(CPREFIX) and len(ops) <= P.N):
         return False
-    if not in_shard(style + 2 * prestate + 6 * (ops[0] % 2 if len(ops) > 0 else 0)):
+    half = 0
+    if len(ops) > 0 and ops[0] >= 6:
+        half = 1
+    if not in_shard(style + 2 * prestate + 6 * half):
         return False
     for o in ops:
         if not 0 <= o < len(COPS):
